@@ -264,7 +264,7 @@ def main(argv=None):
             if mo and pid not in mo.group(1).split(','):
                 other_prop_fail.add(it.label)
                 continue
-            if pid in MARKER_ONLY and not mo:
+            if (pid in MARKER_ONLY or pid in getattr(it, 'marker_props', ())) and not mo:
                 # this property is carried only by clauses explicitly marked with it (the functions it tags carry other
                 # properties' obligations as well)
                 other_prop_fail.add(it.label)
